@@ -330,6 +330,17 @@ GROUPS["bvd_mul"]["features"] = "#![feature(allocator_api)]"
 GROUPS["bvd_mul_bvf"] = dict(name="bvd_mul_bvf", features="#![feature(allocator_api)]",
     prelude=lambda ctx: BVD_VAL_PRELUDE + ["value_mul.rs"] + src_bvf_prelude(dict(ctx, SGN="+")) + ["bvd_mul.rs"],
     items=lambda ctx: BVD_BASE + src_bvf_items(ctx) + [("stub", "bvd.int_len", {"J": "u64", "Y": ""})] + stub(BVD_CORE) + verify(["bvd.mul_bvf"]))
+# ---- BitIterator instantiated per implementation
+ITER_UNITS = ["iter.new", "iter.next", "iter.size_hint", "iter.count", "iter.last", "iter.nth", "iter.next_back", "iter.nth_back"]
+ITER_BVD = {"BT": "Bvd", "HG": "<'a>"}
+ITER_BV = {"BT": "Bv", "HG": "<'a>"}
+def iter_bvf(i):
+    return {"I": i, "BT": "Bvf<%s, N>" % i, "HG": "<'a, const N: usize>"}
+GROUPS["iter_bvd"] = G("iter_bvd", BVD_PRELUDE + ["iter.rs"], BVD_BASE + [("decl", "decl.BitIterator")] + stub(BVD_CORE) + verify(ITER_UNITS))
+GROUPS["iter_bvd"]["features"] = "#![feature(allocator_api)]"
+GROUPS["iter_bvf"] = G("iter_bvf", BVF_PRELUDE + ["iter.rs"], BVF_BASE + [("decl", "decl.BitIterator")] + stub(BVF_CORE) + verify(ITER_UNITS))
+GROUPS["iter_bv"] = G("iter_bv", BV_PRELUDE + ["iter.rs"], BV_BASE + [("decl", "decl.BitIterator")] + stub(["bv.len", "bv.get"]) + verify(ITER_UNITS))
+GROUPS["iter_bv"]["features"] = "#![feature(allocator_api)]"
 GROUPS["mul_theory"] = dict(name="mul_theory", prelude=lambda ctx: WORD_PRELUDE + VALUE_PRELUDE + ["value_mul.rs"], items=lambda ctx: [("decl", "decl.Bit")])
 
 def cmp_prelude(ctx):
@@ -511,6 +522,8 @@ def mul_jobs(pairs, ws):
     return ([("bvf_mul", pair(i, j)) for (i, j) in pairs] + [("bvf_mul_bvd", dctx(i)) for i in ws] + [("bvd_mul", U64)] + [("bvd_mul_bvf", pair("u64", j)) for j in ws])
 PROPS["C01"]["quick"] += mul_jobs(PQ, WQ)
 PROPS["C01"]["thorough"] += mul_jobs(PT, W4)
+PROPS["C17"] = {"quick": [("iter_bvd", dict(U64, **ITER_BVD)), ("iter_bv", dict(U64, **ITER_BV))] + [("iter_bvf", iter_bvf(i)) for i in WQ],
+                 "thorough": [("iter_bvd", dict(U64, **ITER_BVD)), ("iter_bv", dict(U64, **ITER_BV))] + [("iter_bvf", iter_bvf(i)) for i in W4]}
 BVD_ARITH_JOBS = [("bvd_arith", dict(U64, **ARITH_D[o])) for o in ("add", "sub")]
 PROPS["C01"]["quick"] += BVD_ARITH_JOBS
 PROPS["C01"]["thorough"] += BVD_ARITH_JOBS
@@ -609,7 +622,13 @@ MANIFEST_TEXT["C12"] = dict(
 dyn_only("C13", "to_vec/write/from_bytes/read for both endiannesses incl. surplus bits, short input, capacity errors and round trips.", "to_vec/read units not yet written; from_bytes loops are outside Verus (iterator adapters); D3 was found and fixed.")
 dyn_only("C14", "Display/Binary/Octal/LowerHex/UpperHex under 15 format specifications against Rust's formatting of the u128 value.", "Formatter units (pad_integral model) not yet written.")
 dyn_only("C15", "from_binary/from_hex over random strings from an alphabet with valid digits, invalid ASCII and a non-ASCII character (accept set, length, first bad index, capacity error) and parse(format(v)) == v; Bv on both sides of the inline limit.", "Parsing loops are driven by str::chars().enumerate(): outside Verus's front end (DESIGN 2.2); bounded/random is the planned level.")
-dyn_only("C17", "random interleavings of next/next_back/nth/nth_back/size_hint/count/last with arguments up to usize::MAX against std's slice iterator over the same bits.", "BitIterator units not yet woven; D9 was found and fixed.")
+MANIFEST_TEXT["C17"] = dict(
+    text=("Proof: the real bodies of BitIterator::{new, next, size_hint, count, last, nth, next_back, nth_back} (iter.rs), instantiated for Bvf<I,N>, Bvd and Bv, are verified against an abstract view "
+          "`remaining()` = the bits range.start..range.end of the vector front to back, under the invariant start <= end <= len: next/next_back return and remove the first/last remaining bit, nth(n)/nth_back(n) return "
+          "remaining[n] / remaining[len-1-n] and remove everything up to it (None and an EMPTY remainder when n >= remaining, for every n up to usize::MAX: no overflow is reachable), size_hint/count/last are exact and "
+          "do not modify the iterator, the vector is never modified. Any interleaving of the calls therefore agrees with a slice iterator over the same bits (induction over the calls)." + DYN_NOTE),
+    note=("Emitted as inherent methods of BitIterator<'a, T> for each concrete T (the std Iterator trait has no contract hook); `Self::Item` resolved to Bit (R21). Not under contract: the forwarding BitVector::iter / "
+          "IntoIterator::into_iter (one call to BitIterator::new), std's default adapter methods. " + TRUST_NOTE))
 dyn_only("C20", "every owned/borrowed/assign form of + - * / % & | ^ << >> ! and the native-integer forms against each other (identical length and bits), borrowed operands unchanged.", "The forwarding forms themselves are not under contract. The bodies every form funnels into ARE verified on every run of this check (Bvf op= &Bvf for + - & | ^, Bvd op= &Bvd for + - & | ^: units tagged C20); a definite failure there is reported as a violation of this property.")
 MANIFEST_TEXT["C01"] = dict(
     text=("Proof (add/sub): the real bodies of AddAssign/SubAssign<&Bvf<I2,N2>> for Bvf<I1,N1> (both the same-word-size branch and the re-chunking branch through get_int) are verified against the VALUE-level contract "
